@@ -19,7 +19,8 @@ def gen(ctx):
         for t in itertools.product(ALPHABET, repeat=k):
             cases.append(''.join(t))
     # boundary characters around every range test in the code, in every position of short names
-    for c in EXTRA_CHARS:
+    # ... and every one of the 128 ASCII characters (control characters included) and the first characters beyond, likewise
+    for c in EXTRA_CHARS + [chr(i) for i in range(0, 0x82) if chr(i) not in EXTRA_CHARS]:
         for pat in ('%s', 'a%s', '%sa', 'a%sa', 'a-%s', '%s-a', 'a%s%sb', '-%s', '%s-'):
             cases.append(pat.replace('%s', c))
     # random longer names
@@ -39,8 +40,8 @@ def run(ctx):
     build.extract_and_driver()
     h = build.harness()
     cases = gen(ctx)
-    ctx.extra['rule'] = ('every string up to length %d over the 8-class alphabet %r (exhaustive), boundary characters of every '
-                         'range test in 9 positions, random names of length 7-24; each through PackageName::new/from_str/'
+    ctx.extra['rule'] = ('every string up to length %d over the 8-class alphabet %r (exhaustive), every ASCII character (and boundary characters beyond) '
+                         'in 9 positions, random names of length 7-24; each through PackageName::new/from_str/'
                          'Deserialize, ExtraName::new/from_str/Deserialize, as_dist_info_name; non-trivial = distinct '
                          '(accepted?, normal form) outcome classes by shape' % (6 if ctx.tier == 'quick' else 7, ALPHABET))
     ctx.extra['exhaustive_up_to_length'] = 6 if ctx.tier == 'quick' else 7
